@@ -18,7 +18,9 @@ RULE = ("26 base shapes (with/without scheme, authority, root, trailing slash, e
 
 BASES = ["http://h", "http://h/", "http://h/a", "http://h/a/", "http://h/a/b", "http://h/a/b/", "http://h/a%20b/c%2Fd", "http://h/x.tar.gz",
          "http://h/.hidden", "http://h/a.", "http://h/a/b.c.d?q=1#f", "http://u:p@h:81/a", "//h/a/b", "/", "/a", "/a/", "/a/b.txt", "a", "a/",
-         "a/b.c", "", "x:a/b", "x:/a", "http://h/%C3%A9.txt", "http://h/a//b", "/a%2Eb/c%25.d"]
+         "a/b.c", "", "x:a/b", "x:/a", "http://h/%C3%A9.txt", "http://h/a//b", "/a%2Eb/c%25.d",
+         # names whose last dot is the last or first character, with other dots around
+         "http://h/d/archive.tar.", "http://h/a..", "http://h/.a.b.", "http://h/report.v2.", "/x/..b", "http://h/a.b..", "http://h/d//n.t"]
 SEGS = ["s", "a b", "é", "x.y", ".h", "a.", "%2F", "a%2Fb", "%", "a+b", "a;b=c", ":", "@", "~", "a?b", "a#b", "日本", "..a", ".", "..", ""]
 SUFFIXES = [".py", ".tar.gz", "", ".a b", ".é", ".%41", ".", "py"]
 
